@@ -24,9 +24,12 @@ LEVEL_TEXT = ('Lean 4 theorems over a line-by-line model of Macro.id/idgen, Rend
               'split level and base-url the URL of every node names a produced file (url_names_produced_file), its fragment is an identifier '
               'emitted into exactly that file (fragment_is_in_that_file), identifiers are pairwise distinct in the whole output when labels are '
               '(ids_unique_per_file; generated ids are fresh and strictly increasing), a resolved reference shows the number of and links to the '
-              'labelled node (ref_shows_target_number), every toc link lands (toc_links_land), and every file is linked from the table of contents '
-              'when toc-depth is at least the nesting depth (toc_reaches_every_file_partial; the depth-limited case, reached through next links, '
-              'is carried by the correspondence streams). The model is tied to the real code by differential execution of abstract trees through the real '
+              'labelled node (ref_shows_target_number), every toc, next and prev link lands (toc_links_land, nav_links_land; next/prev are inverse on neighbouring '
+              'file sections: next_prev_neighbours), and with a table of contents every produced file is reachable from the start page at full strength - any toc-depth, '
+              'toc-non-files on or off - through toc and next links (toc_reaches_every_file; toc_reaches_every_file_of_document states it on the input document alone: '
+              'levels nest, split level < ENDSECTIONS_LEVEL; prepared_tocOK and prepared_files_distinct discharge its two hypotheses; toc_alone_reaches_every_file: the toc '
+              'alone suffices when toc-depth covers the nesting). url_file_is_c13_owner connects to C13: the file a URL names is the file into which C13\'s model of '
+              'Renderable.__str__ (Model/Render.lean) writes the node\'s own template output. The model is tied to the real code by differential execution of abstract trees through the real '
               'Renderer with stub templates; which templates emit id=/href= is carried by the document stream doc14 '
               '(real HTML5 default/minimal and XHTML default themes, output parsed with html.parser).')
 LEVEL_NOTE = ('Trusted: Lean kernel, the correspondence harness and generators, html.parser, the Python document oracle c14doc.py (LaTeX numbering rules '
